@@ -350,6 +350,11 @@ def registry_replay(ctx: Ctx) -> None:
               ctx.count(n=1)
               if got != reads[key]:
                   ctx.violation("registry:ul", f"ul({idx}) is {got}, the registry machine says {reads[key]}", {"history": story})
+          for nm, want_p in reads.get("attrs", []):
+              got_p = {id(v): k for k, v in prims.items()}.get(id(getattr(d, nm, None)), "?")
+              ctx.count(n=1)
+              if got_p != want_p:
+                  ctx.violation("registry:attribute", f"derivative.{nm} is {got_p} while the instrument registered under that name (named_underliers, ul()) is {want_p}", {"history": story})
           try:
               sp = d.spot
               got_spot = int(sp[0, 0].item())
